@@ -144,7 +144,13 @@ fn one<C: Suite>(ctx: &mut Ctx, g: u64, scheme: Scheme, len: usize, li: usize, e
             let mut part: Vec<SignatureShare<C>> = shares.iter().map(|s| s.sign(ls_, &id).expect("partial")).collect();
             gen::shuffle(&mut part, &mut rng);
             part.truncate(t);
-            let s2 = Signature::<C>::from_shares(&part).expect("recombine");
+            let s2 = match Signature::<C>::from_shares(&part) {
+                Ok(s2) => s2,
+                Err(e) => {
+                    ctx.violation(&format!("C13/share-recombined-open-failed/{n}/{sn}"), { let mut x = d("t signature shares over the identifier do not recombine"); x["error"] = json!(e.to_string()); x });
+                    continue;
+                }
+            };
             let Some(p) = open(ctx, &ct, &s2) else { continue };
             ctx.expect(p.as_deref() == Some(&msg[..]), &format!("C13/share-recombined-open-failed/{n}/{sn}"), || d("a signature recombined from threshold shares does not open the ciphertext"));
             ctx.hit(&format!("{n}/{sn}/honest-from-shares"), &[&ctb, &[t as u8, nn as u8]]);
